@@ -62,7 +62,7 @@ claimed = {
             "earlier theorems apply to the flattened history. Tie: the real World runs lazy inserts, batch inserts, removes, "
             "lazy builders and closures (nested to depth 3, creating and deleting entities, queueing further closures) over "
             "several maintains; every operation run inside a closure is logged in order with what it destroyed and compared "
-            "exactly with the extracted model.", "5.C09"),
+            "exactly with the extracted model; queues of several hundred pending actions with nested queueing.", "5.C09"),
     "C12": ("Theorems: for both wrappers over any inner kind, every Storage-API operation other than clear() and the "
             "emission switch appends events whose replay over the old membership gives the new membership (the relation is "
             "transitive, so it holds between a reader's registration and any later read); builder/lazy insertion and entity "
@@ -70,7 +70,11 @@ claimed = {
             "is appended by FlaggedStorage on every get_mut and by DerefFlaggedStorage exactly when the returned access was "
             "dereferenced mutably or written through; read-only operations append nothing. Tie: the ten wrapped storages with "
             "readers registered early and read often, every removal path, emission toggled at random points; the events "
-            "delivered to each reader must equal the specification's.", "5.C12"),
+            "delivered to each reader must equal the specification's. Further theorem: whatever the tuple and the kind of "
+            "join, a tracked storage's channel receives exactly the events of the mutable accesses and removals the join's "
+            "rows show, in visit order, and nothing when emission is off. Beside the theorems (implementation alone, no "
+            "model): with a component destructor armed to panic at every position of every destroying operation on the ten "
+            "tracked storages, the events read afterwards still replay to the mask the storage shows.", "5.C12"),
     "C17": ("Theorem: in every accepted transcript each creation takes an index below the peak number of simultaneously "
             "not-yet-dead entities up to and including that creation (induction over the history, any length); the faithful "
             "(repaired) model refines the specification; the code as found is refuted by a vm_compute witness. Tie as C01 "
